@@ -549,8 +549,17 @@ def default_value(elname, a):
     if a.type == "id":
         _uid[0] += 1
         return "x%d" % _uid[0]
-    vals = values_for(elname, a)
-    return vals[0] if vals else "1"
+    vals = [v for v in values_for(elname, a) if not isinstance(v, tuple)]
+    if vals:
+        return vals[0]
+    S, sc = schema()
+    if a.type in ("enum", "flags"):
+        return sc.enums[a.target].keywords()[0]
+    if a.type == "bool":
+        return "true"
+    lo, hi = arity(a)
+    n = hi if hi is not None else max(lo, 3)
+    return " ".join(["1" if a.type == "int" else "0.5"] * max(n, 1))
 
 
 def _add_needs(doc, key):
